@@ -350,3 +350,136 @@ def fromdelta_vs_civil_bce(days: int, secs: int) -> bool:
     """
     d = DateTime.fromdelta(datetime.timedelta(days=days, seconds=secs))
     return civil_days(_astro(d.year), d.month, d.day) == days and d.hour * 3600 + d.minute * 60 + d.second == secs
+
+
+# --- E2: dayTimeDuration <-> timedelta conversions for every multiple of a microsecond --------------------------------------
+
+from decimal import Decimal  # noqa: E402
+
+
+class _TD:
+    """contract of datetime.timedelta(seconds=s, microseconds=u) for integer arguments: total microseconds"""
+    def __init__(self, total_us):
+        self.total_us = total_us
+
+
+def _td_stub(fn, days=0, seconds=0, microseconds=0):
+    d, s, u = PS.unwrap(days), PS.unwrap(seconds), PS.unwrap(microseconds)
+    for v in (d, s, u):
+        if z3.is_expr(v) and v.sort() != z3.IntSort():
+            raise PS.Unsupported('timedelta() with a non-integer argument')
+    return _TD(d * 86400 * 10 ** 6 + s * 10 ** 6 + u)
+
+
+@ob(engine='z3', budget=60, bound='every dayTimeDuration value n/10^6 seconds, n any integer', funcs=[D + ':DayTimeDuration.get_timedelta'])
+def e2_get_timedelta(ctx):
+    q = Queries(timeout_s=30, diff_binary=False)
+    n = z3.Int('n')
+    secs = z3.ToReal(n) / 1000000
+    me = PS.Obj('self', dict(seconds=PS.Sym(secs, Decimal)))
+    try:
+        r = PS.translate(DayTimeDuration.get_timedelta, [me], stubs={'datetime.timedelta': _td_stub})
+    except PS.Unsupported as e:
+        return q.result(not_encodable=str(e))
+    outs = [(c, v) for c, v in r['rets'] if isinstance(v, _TD)]
+    if len(outs) != 1:
+        return q.result(not_encodable='unexpected return shape')
+    total = outs[0][1].total_us
+    base = list(r['fn'].side)
+    res, m0 = q.check('reach', base + [n < -1000000, n % 1000000 != 0], expect='sat')
+    q.sat = []
+    q.samples.append('seconds=%s/10^6' % mval(m0, n))
+    cex = []
+    res, m = q.check('timedelta microseconds = n', base + [total != n])
+    if res == 'sat':
+        cex.append(dict(call='replay_get_timedelta(%d)' % mval(m, n), message='get_timedelta wrong for %s microseconds' % mval(m, n)))
+    return q.result(cex, detail=dict(stubs=sorted(set(r['notes']))))
+
+
+def replay_get_timedelta(n):
+    d = DayTimeDuration(seconds=Decimal(n) / 1000000)
+    return d.get_timedelta() == datetime.timedelta(microseconds=n)
+
+
+@ob(engine='z3', budget=60, bound='every timedelta (days, seconds in [0,86399], microseconds in [0,999999]) -> dayTimeDuration seconds',
+    funcs=[D + ':DayTimeDuration.fromtimedelta'])
+def e2_fromtimedelta(ctx):
+    q = Queries(timeout_s=30, diff_binary=False)
+    days, secs, us = z3.Ints('days secs us')
+    td = PS.Obj('td', dict(days=days, seconds=secs, microseconds=us))
+    captured = {}
+
+    def ctor(fn, seconds=None):
+        captured['seconds'] = PS.unwrap(seconds)
+        return PS.Obj('duration')
+    try:
+        r = PS.translate(DayTimeDuration.fromtimedelta.__func__, [PS.Obj('cls'), td], stubs={'cls': ctor})
+    except PS.Unsupported as e:
+        return q.result(not_encodable=str(e))
+    if 'seconds' not in captured:
+        return q.result(not_encodable='constructor call not found')
+    got = captured['seconds']
+    got = z3.ToReal(got) if z3.is_expr(got) and got.sort() == z3.IntSort() else got
+    rng = [0 <= secs, secs < 86400, 0 <= us, us < 1000000]
+    want = z3.ToReal(days * 86400 + secs) + z3.ToReal(us) / 1000000
+    res, m0 = q.check('reach', rng + [days < 0, us > 0], expect='sat')
+    q.sat = []
+    q.samples.append('days=%s seconds=%s microseconds=%s' % (mval(m0, days), mval(m0, secs), mval(m0, us)))
+    cex = []
+    res, m = q.check('seconds = days*86400 + seconds + microseconds/10^6', rng + [got != want])
+    if res == 'sat':
+        cex.append(dict(call='replay_fromtimedelta(%d, %d, %d)' % (mval(m, days), mval(m, secs), mval(m, us)), message='fromtimedelta wrong'))
+    return q.result(cex, detail=dict(stubs=sorted(set(r['notes']))))
+
+
+def replay_fromtimedelta(days, secs, us):
+    td = datetime.timedelta(days=days, seconds=secs, microseconds=us)
+    return DayTimeDuration.fromtimedelta(td).seconds == Decimal(days * 86400 + secs) + Decimal(us) / 1000000
+
+
+# --- timezones: lexical form <-> offset ---------------------------------------------------------------------------------------
+
+HH = tuple('%02d' % h for h in range(15))
+MM = tuple('%02d' % m for m in range(60))
+
+
+def _tz_roundtrip(neg, h, m):
+    text = ('-' if neg else '+') + HH[h] + ':' + MM[m]
+    tz = Timezone.fromstring(text)
+    minutes = (h * 60 + m) * (-1 if neg else 1)
+    if tz.offset != datetime.timedelta(minutes=minutes):
+        return False
+    # canonical form is a fixed point that re-parses to an equal value
+    s = str(tz)
+    return Timezone.fromstring(s) == tz and (s == text or minutes == 0 and s == 'Z')
+
+
+_TZ = '''
+@ob(budget=200, bound='every timezone designator {sign}hh:mm with hh in {lo:02d}..{hi:02d}, mm in 00..59 (digits chosen by the solver from tables)',
+    funcs=[D + ':Timezone.fromstring', D + ':Timezone.tzname'])
+def timezone_lexical_roundtrip_{name}(h: int, m: int) -> bool:
+    """
+    pre: {lo} <= h <= {hi} and 0 <= m <= 59 and (h < 14 or m == 0)
+    post: _
+    """
+    return _tz_roundtrip({neg}, h, m)
+'''
+for _neg in (False, True):
+    for _lo, _hi in ((0, 3), (4, 8), (9, 14)):
+        define(_TZ.format(sign='-' if _neg else '+', lo=_lo, hi=_hi, neg=_neg, name=('minus' if _neg else 'plus') + '_%02d' % _lo), globals())
+
+
+T_TZ = parse_all({'tz': 'timezone-from-time(xs:time($s))', 'eq': 'xs:time($s) eq xs:time($t)'})
+
+
+@ob(budget=120, tbudget=600, kind='hunt', bound='xs:time with a symbolic timezone minute offset in [-840, 840]: timezone-from-time returns the offset; equal instants compare eq (datetime model: bug-hunting)',
+    funcs=[D + ':Timezone', 'elementpath/xpath2/_xpath2_functions.py:timezone-from-time'])
+def timezone_through_xpath(neg: bool, h: int, m: int) -> bool:
+    """
+    pre: 0 <= h <= 13 and 0 <= m <= 59
+    post: _
+    """
+    text = ('-' if neg else '+') + HH[h] + ':' + MM[m]
+    r = T_TZ['tz'].evaluate(XPathContext(item=1, variables={'s': '12:00:00' + text}))
+    r = r[0] if isinstance(r, list) else r
+    return r.seconds == (h * 60 + m) * 60 * (-1 if neg else 1)
